@@ -44,6 +44,11 @@
 //	             results (`return nil` ↦ []); string sentinels of an id type (idLean, idConsts);
 //	             opaque calls replaced by a Lean term over extra Lean parameters (opaque,
 //	             extraParams)
+//	             (see kernels_value.go): strings (constants, variables, == / !=) ↦ String; a Go
+//	             `any` ↦ GoSem.Any (value tagged by its dynamic type; a float64 only as an opaque
+//	             marker, opaqueFloat); intN(x) of an exactFloat x ↦ BitVec.ofInt; struct (pointer)
+//	             locals / results of kernelSpec.structs ↦ Lean records with field assignment;
+//	             aliases of reads through a parameter (aliases); untranslated locals (ignoreVars)
 package main
 
 import (
@@ -104,6 +109,11 @@ type kernelSpec struct {
 	extraParams []kVar            // Lean parameters without a Go counterpart (the functions of the opaque calls)
 	opaque      []kOpaque         // calls that are not translated but REPLACED by the listed Lean term
 	hoistIndex  bool              // an index expression nested in the right-hand side of an assignment is hoisted
+
+	// extensions used by the kernels of kernels_value.go
+	aliases     map[string]string // local `x := <read through a parameter>` that is only the root of parameterised reads
+	ignoreVars  []string          // locals that are NOT translated (statements that only concern them are dropped)
+	opaqueFloat bool              // a float64 stored in an `any` is the marker Any.float64 (its expression is not translated)
 }
 
 // kOpaque: `x := <fun>(a1, .., an)` is replaced by the Lean term `lean` (`%1` .. `%n` = the
@@ -283,6 +293,11 @@ const (
 )
 
 const kFunc kKind = 101 // a Lean function parameter of an opaque call (kernelSpec.extraParams); never a Go value
+const (
+	kStr kKind = 102 + iota // Go string (and named string types) ↦ String: constants, variables, == / != only
+	kAny                    // Go `any` ↦ Acme.GoSem.Any (the stored value tagged by its dynamic type)
+	kRec                    // a struct (pointer) of kernelSpec.structs ↦ the Lean record `elem`
+)
 
 type kType struct {
 	k      kKind
@@ -306,6 +321,12 @@ func (t kType) lean() string {
 		return "Nat"
 	case kFunc:
 		return "(" + t.elem + ")"
+	case kStr:
+		return "String"
+	case kAny:
+		return "Acme.GoSem.Any"
+	case kRec:
+		return t.elem
 	case kElem:
 		return t.elem
 	case kList:
@@ -351,6 +372,12 @@ func (t kType) String() string {
 		return "nilable slice element"
 	case kFunc:
 		return "function parameter"
+	case kStr:
+		return "string"
+	case kAny:
+		return "any"
+	case kRec:
+		return "struct " + t.elem
 	}
 	return "untyped constant"
 }
@@ -629,6 +656,12 @@ func (t *ktr) constLit(v constant.Value, ty kType, at ast.Node, asProp bool) str
 		}
 		return "false"
 	}
+	if ty.k == kStr {
+		if v.Kind() != constant.String {
+			t.fail(at, "constant %s of a string type", v)
+		}
+		return leanStr(constant.StringVal(v))
+	}
 	if ty.k == kId {
 		if v.Kind() == constant.String {
 			if l, ok := t.spec.idConsts[constant.StringVal(v)]; ok {
@@ -802,6 +835,10 @@ func (t *ktr) conv(a string, from, to kType, at ast.Node) string {
 	case kBV:
 		switch from.k {
 		case kInt, kUntyped:
+			return fmt.Sprintf("(BitVec.ofInt %d %s)", to.w, a)
+		case kExact:
+			// intN(x) / uintN(x) of a float64 that holds an exact integer IN THE RANGE of the target
+			// type (the exactFloat convention; out of range the Go result is implementation-defined)
 			return fmt.Sprintf("(BitVec.ofInt %d %s)", to.w, a)
 		case kBV:
 			if from.w == to.w {
@@ -1037,7 +1074,7 @@ func (t *ktr) compare(at ast.Node, x ast.Expr, op token.Token, y ast.Expr) strin
 		t.fail(at, "comparison of %ss", aty)
 	case aty.k == kId && ordered:
 		t.fail(at, "ordered comparison %s of opaque identities", op)
-	case aty.k == kBool && ordered, aty.k == kExact:
+	case aty.k == kBool && ordered, aty.k == kExact, aty.k == kStr && ordered, aty.k == kAny, aty.k == kRec, aty.k == kFunc:
 		t.fail(at, "comparison %s on %s", op, aty)
 	case aty.k == kBV && aty.signed && ordered:
 		return "(BitVec.toInt " + a + " " + sym + " BitVec.toInt " + b + ")"
@@ -1092,6 +1129,11 @@ func (t *ktr) prop(e ast.Expr) string {
 func (t *ktr) value(e ast.Expr, want kType) string {
 	if want.k == kErrT {
 		return t.errValue(e)
+	}
+	if want.k == kRec {
+		if u, ok := unparen(e).(*ast.UnaryExpr); ok && u.Op == token.AND {
+			return t.recordLit(e, want.elem)
+		}
 	}
 	if id, ok := unparen(e).(*ast.Ident); ok && want.k == kList {
 		if _, isNil := t.info.Uses[id].(*types.Nil); isNil {
@@ -1359,6 +1401,12 @@ func (t *ktr) stmt1(s ast.Stmt) []kStmt {
 				rhs = "false"
 			} else if ty.k == kElemOpt {
 				rhs = "none"
+			} else if ty.k == kStr {
+				rhs = "\"\""
+			} else if ty.k == kAny {
+				rhs = "Acme.GoSem.Any.nil"
+			} else if ty.k == kRec || ty.k == kList || ty.k == kErrT || ty.k == kId {
+				t.fail(x, "var declaration of a %s without a value", ty)
 			} else {
 				rhs = t.constLit(constant.MakeInt64(0), ty, x, false)
 			}
@@ -1900,6 +1948,21 @@ func (t *ktr) emit(ss []kStmt, ind int, k func(ind int) string) string {
 	panic(kErr{token.NoPos, fmt.Sprintf("internal: statement %T", ss[0])})
 }
 
+// aliasRoot: for the root `x` of a parameterised read where `x := p.f..` is listed in
+// kernelSpec.aliases, the parameter p ("" otherwise).  The alias statement itself is checked and
+// dropped by the statement hook of kernels_value.go; x is not a variable of the translation, so
+// any other use (in particular an assignment) is an error.
+func (t *ktr) aliasRoot(root *ast.Ident) string {
+	target, ok := t.spec.aliases[root.Name]
+	if !ok {
+		return ""
+	}
+	if _, isVar := t.info.Uses[root].(*types.Var); !isVar {
+		return ""
+	}
+	return strings.SplitN(target, ".", 2)[0]
+}
+
 // sliceParam: a Go parameter `p []uintN` / `p []int` listed in kernelSpec.sliceParams is the
 // Lean parameter `p : List (BitVec N)` / `List Int` (read with len, range and index only).
 func (t *ktr) sliceParam(obj types.Object, id *ast.Ident) (kType, bool) {
@@ -2080,7 +2143,8 @@ func translateKernel(spec *kernelSpec, p *packages.Package, funcs map[types.Obje
 			}
 			for _, f := range allFields {
 				fu := t.fields[f.expr]
-				if (fu.root != nil && t.info.Uses[fu.root] == obj && obj != nil) || (fu.root == nil && viaRoot[f.expr] == id.Name) {
+				if (fu.root != nil && t.info.Uses[fu.root] == obj && obj != nil) || (fu.root == nil && viaRoot[f.expr] == id.Name) ||
+					(fu.root != nil && t.aliasRoot(fu.root) == id.Name) {
 					if spec.state != nil && spec.state.outOnly && f.expr == spec.state.slice {
 						placed[f.expr] = true // an output only: not a parameter
 						callable = false
